@@ -67,9 +67,11 @@ Print Assumptions C19_later_field_zero.
 (* Add stores the attribute values of the resource it is given: for a resource
    whose attributes fit the collection's type ([pending_ok]: distinct names,
    each either already defined identically in the type or not a field of it,
-   a value of the declared Go type or nil for a nullable one) the appended
-   element carries the resource's ID, the type afterwards defines every such
-   attribute, and the element reads the value -- the zero value for nil. *)
+   a value of the declared Go type or nil for a nullable one; likewise its
+   relationships) the appended element carries the resource's ID, the type
+   afterwards defines every such attribute, the element reads the value --
+   the zero value for nil -- and every relationship value of the declared
+   cardinality. *)
 Theorem C19_add_stores_values : forall c src id,
   wf_res_type (sc_type c) ->
   res_get src "id" = Ok (VStr id) ->
@@ -79,16 +81,17 @@ Theorem C19_add_stores_values : forall c src id,
               forall kv kr, In kv (res_attrs src) -> In kr (res_rels src) -> aname (snd kv) <> from_name (snd kr)) ->
   exists c' data,
     sc_add c src = Ok c' /\ sc_items c' = (sc_items c ++ [(id, data)])%list /\
-    forall kv v, In kv (res_attrs src) -> res_get src (aname (snd kv)) = Ok v ->
+    (forall kv v, In kv (res_attrs src) -> res_get src (aname (snd kv)) = Ok v ->
       lookup (aname (snd kv)) (tattrs (sc_type c')) = Some (snd kv) /\
-      soft_get (item_soft c' (id, data)) (aname (snd kv)) = kept (snd kv) v.
+      soft_get (item_soft c' (id, data)) (aname (snd kv)) = kept (snd kv) v) /\
+    (forall kr v, In kr (res_rels src) -> res_get src (from_name (snd kr)) = Ok v -> rel_typed (snd kr) v ->
+      soft_get (item_soft c' (id, data)) (from_name (snd kr)) = v).
 Proof. exact sc_add_stores_values. Qed.
 Print Assumptions C19_add_stores_values.
 
-(* NOT PROVED here (correspondence + oracle): the stored relationship values,
-   and snapshot semantics w.r.t. later Set calls on the source (values are
-   immutable in this model; the Go side re-reads the snapshot after mutating
-   the source). *)
+(* NOT PROVED here (correspondence + oracle): snapshot semantics w.r.t. later
+   Set calls on the source (values are immutable in this model; the Go side
+   re-reads the snapshot after mutating the source). *)
 
 (* the hypotheses of C19_add_stores_values are satisfiable *)
 Example c19_add_premises :
